@@ -4,8 +4,10 @@ driven by the virtual loop; every schedule is a list of explicit operations:
   set   settle an input from outside the loop        soon  loop.call_soon(settle)
   tick  one loop iteration                           fire  clock reaches the deadline + one iteration
   next  `if not wi.done(): wi.next()` (consumer protocol of WaitIterator)
+Input futures come in two kinds: "a" = asyncio.Future (default) and "f" = concurrent.futures.Future (case keys
+`ka`/`kb` for chain/timeout, `fk` = one kind per input for multi/wait).
 """
-import asyncio, itertools, logging, re
+import asyncio, concurrent.futures, itertools, logging, re
 from core.wire import atom, line, parse_reply, Atom
 from core import vloop
 
@@ -17,6 +19,7 @@ THEOREMS = [_T + n for n in [
     "multi_finish_spec", "multi_last_callback", "multi_out_stable",
     "timeout_res_stable", "with_timeout_before", "with_timeout_after", "with_timeout_no_deadline",
     "waititer_refuted",
+    "chain_cf_copies", "chain_cf_never_pending", "with_timeout_cf_no_deadline",
 ]]
 GOALS = ["multi_settles_goal", "multi_outcome_goal", "multi_not_early_goal", "waititer_partial_goal"]   # tie only
 TRUSTED = [
@@ -25,10 +28,21 @@ TRUSTED = [
     "the callbacks that were ready when it started; due timers join the end of the ready queue; cancelled handles "
     "are skipped (exercised step by step against real asyncio on every run)",
     "tornado.ioloop add_timeout/remove_timeout on the asyncio loop, logging via tornado.log.app_log",
+    "concurrent.futures.Future sources (Chain.initCF / Timeout.initCF): done-callbacks run synchronously when the "
+    "future settles and IOLoop.add_future hops to the loop with add_callback, so `copy` reaches the ready queue at "
+    "the same point as for an asyncio future; an already-done source behaves like a pending one settled at once "
+    "(no inline copy) — exercised step by step against real concurrent.futures.Future objects on every run",
 ]
 ASSUMPTIONS = [
-    "inputs are asyncio Futures settled by set_result / set_exception(Exception subclass instance) / cancel()",
-    "quiet_exceptions=() ; concurrent.futures inputs and yieldables other than Futures are not modelled",
+    "inputs are asyncio Futures or concurrent.futures Futures settled (on the loop thread) by set_result / "
+    "set_exception(Exception subclass instance) / cancel()",
+    "quiet_exceptions=() ; yieldables other than Futures are not modelled",
+    "concurrent.futures inputs: chain_future (source and/or destination) and with_timeout are compared step by step "
+    "(with_timeout without the log-record count: error_callback runs at set time there and also logs a cancelled "
+    "concurrent future); multi / WaitIterator with concurrent.futures children are compared on the final state "
+    "after the loop drained (their callbacks run synchronously at set time) and judged by the same oracle; "
+    "WaitIterator schedules with concurrent children run one loop iteration after every operation and have no "
+    "duplicate arguments",
     "WaitIterator is driven by the documented consumer protocol (next() only when not done() and the previous "
     "future has resolved); the outputs of multi/with_timeout are not cancelled by the consumer",
     "with_timeout: an input settled by a call_soon'ed callback in the very iteration in which the timer is due "
@@ -37,7 +51,9 @@ ASSUMPTIONS = [
 RULE = ("complete enumeration of <=4 inputs x {result,exception,cancelled} x all completion orders x "
         "{already done} x tick placements (batch/step/call_soon) for multi (lists with duplicates, dicts) and "
         "WaitIterator (args/kwargs, eager/lazy consumer), all op sequences up to length 5 for with_timeout "
-        "(deadline placements) and chain_future, plus random interleavings; non-trivial = at least one input "
+        "(deadline placements) and chain_future, each input future kind (asyncio.Future / concurrent.futures.Future: "
+        "chain source x destination, with_timeout input, all kind vectors of <=2-3 multi / WaitIterator children), "
+        "plus random interleavings; non-trivial = at least one input "
         "settles after construction and the output is observed settled")
 EXHAUSTIVE = {"quick": True, "thorough": True}
 CLAUSES = {
@@ -50,9 +66,10 @@ CLAUSES = {
     "with_timeout settles with the input's outcome if it finishes before the deadline and with TimeoutError otherwise":
         "with_timeout_before + with_timeout_after + with_timeout_no_deadline + timeout_res_stable",
     "a chained future copies its source's outcome, including cancellation, unless already done":
-        "chain_copies + chain_b_stable + chain_only_from_source",
+        "chain_copies + chain_b_stable + chain_only_from_source; concurrent.futures source: chain_cf_copies",
     "none is left pending forever once its inputs are done":
-        "chain_never_pending; with_timeout_before/after/no_deadline (result settled in every case); "
+        "chain_never_pending, chain_cf_never_pending; with_timeout_before/after/no_deadline, "
+        "with_timeout_cf_no_deadline (result settled in every case); "
         "multi / WaitIterator: tie only",
 }
 PARALLEL = False   # a case costs ~0.2 ms; forking workers is slower than running them in-process
@@ -159,7 +176,47 @@ def _wait_cases(nmax, modes, consumers, predone_max, dup):
                                        "ops": _wait_ops(order, outs, mode, c, n)}
 
 
-def _timeout_cases(maxlen):
+def _kind_vectors(k):
+    """all assignments of future kinds to k inputs with at least one concurrent.futures.Future"""
+    return [list(v) for v in itertools.product("af", repeat=k) if "f" in v]
+
+
+def _tick_each(ops):
+    """let the loop go idle after every operation (schedules for WaitIterator over concurrent futures):
+    one iteration after set / next, two after soon (the settle runs in the first, its callbacks in the second)"""
+    out = []
+    for op in ops:
+        if op[0] != "tick":
+            out += [op] + [["tick"]] * (2 if op[0] == "soon" else 1)
+    return out + [["tick"]]
+
+
+def _drained(ops):
+    """is every operation followed by enough iterations for the loop to be idle before the next one?"""
+    need = 0
+    for op in ops:
+        if op[0] == "tick":
+            need = max(0, need - 1)
+        elif need:
+            return False
+        else:
+            need = 2 if op[0].startswith("soon") else 1
+    return need == 0
+
+
+def _multi_cf_cases(nmax, modes, predone_max):
+    for c in _multi_cases(nmax, modes, predone_max, partial=True):
+        for fk in _kind_vectors(len(c["st"])):
+            yield {**c, "fk": fk}
+
+
+def _wait_cf_cases(nmax, modes, consumers, predone_max):
+    for c in _wait_cases(nmax, modes, consumers, predone_max, dup=False):
+        for fk in _kind_vectors(len(c["st"])):
+            yield {**c, "fk": fk, "ops": _tick_each(c["ops"])}
+
+
+def _timeout_cases(maxlen, ka="a"):
     settles = [["setA", o] for o in (["r", 10], ["e", 3], "c")] + [["soonA", o] for o in (["r", 10], ["e", 3], "c")]
     alphabet = settles + [["tick"], ["fire"]]
     for pa in ["p", ["r", 10], ["e", 3], "c"]:
@@ -172,10 +229,13 @@ def _timeout_cases(maxlen):
                     continue
                 if pa != "p" and any(o[0] in ("setA", "soonA") for o in ops):
                     continue
-                yield {"k": "timeout", "pa": pa, "ops": ops + [["tick"], ["tick"]]}
+                c = {"k": "timeout", "pa": pa, "ops": ops + [["tick"], ["tick"]]}
+                if ka != "a":
+                    c["ka"] = ka
+                yield c
 
 
-def _chain_cases(maxlen):
+def _chain_cases(maxlen, ka="a", kb="a"):
     aset = [[m, o] for m in ("setA", "soonA") for o in (["r", 10], ["e", 3], "c")]
     bset = [[m, o] for m in ("setB", "soonB") for o in (["r", 20], "c")]
     alphabet = aset + bset + [["tick"]]
@@ -188,10 +248,29 @@ def _chain_cases(maxlen):
                         continue
                     if sum(1 for o in ops if o[0][-1] == "B") > 1:
                         continue
-                    yield {"k": "chain", "pa": pa, "pb": pb, "ops": ops + [["tick"], ["tick"]]}
+                    c = {"k": "chain", "pa": pa, "pb": pb, "ops": ops + [["tick"], ["tick"]]}
+                    if (ka, kb) != ("a", "a"):
+                        c["ka"], c["kb"] = ka, kb
+                    yield c
 
 
 def _random_case(rng):
+    """a random interleaving; about one in three gets concurrent.futures inputs"""
+    c = _random_base(rng)
+    if rng.random() < 0.35:
+        k = c["k"]
+        if k == "chain":
+            c["ka"], c["kb"] = rng.choice([("f", "a"), ("f", "a"), ("f", "f"), ("a", "f")])
+        elif k == "timeout":
+            c["ka"] = "f"
+        elif k == "multi" or len(set(c["args"])) == len(c["args"]):
+            c["fk"] = rng.choice(_kind_vectors(len(c["st"])))
+            if k == "wait":
+                c["ops"] = _tick_each(c["ops"])
+    return c
+
+
+def _random_base(rng):
     k = rng.random()
     if k < 0.35:
         n = rng.randint(1, 4)
@@ -262,6 +341,12 @@ def gen_cases(rng, tier):
         yield from _wait_cases(2, ["batch", "step"], ["eager", "lazy"], 2, dup=True)
         yield from _timeout_cases(4)
         yield from _chain_cases(3)
+        yield from _chain_cases(3, "f", "a")
+        yield from _chain_cases(2, "f", "f")
+        yield from _chain_cases(2, "a", "f")
+        yield from _timeout_cases(4, "f")
+        yield from _multi_cf_cases(2, ["batch", "step", "soon"], 2)
+        yield from _wait_cf_cases(2, ["batch", "step"], ["eager", "lazy", "late"], 2)
         nrand = 1500
     else:
         yield from _multi_cases(4, ["batch", "step", "soon", "soonstep"], 4, partial=True)
@@ -269,6 +354,12 @@ def gen_cases(rng, tier):
         yield from _wait_cases(3, ["batch", "step"], ["eager", "lazy", "late"], 3, dup=True)
         yield from _timeout_cases(5)
         yield from _chain_cases(4)
+        yield from _chain_cases(4, "f", "a")
+        yield from _chain_cases(3, "f", "f")
+        yield from _chain_cases(3, "a", "f")
+        yield from _timeout_cases(5, "f")
+        yield from _multi_cf_cases(3, ["batch", "step", "soon", "soonstep"], 3)
+        yield from _wait_cf_cases(3, ["batch", "step", "soon"], ["eager", "lazy", "late"], 3)
         nrand = 20000
     for _ in range(nrand):
         yield _random_case(rng)
@@ -296,11 +387,11 @@ def _settle(f, o):
 def _exc_code(e):
     if isinstance(e, E):
         return e.code
-    if isinstance(e, asyncio.CancelledError):
+    if isinstance(e, (asyncio.CancelledError, concurrent.futures.CancelledError)):
         return 0
-    if isinstance(e, asyncio.TimeoutError):
+    if isinstance(e, (asyncio.TimeoutError, concurrent.futures.TimeoutError)):
         return 1
-    if isinstance(e, asyncio.InvalidStateError):
+    if isinstance(e, (asyncio.InvalidStateError, concurrent.futures.InvalidStateError)):
         return 2
     return "Uncaught:" + type(e).__name__
 
@@ -351,6 +442,11 @@ def _reset(lp):
     lp._stopping = False
 
 
+def _is_cf(case):
+    """does the case use concurrent.futures.Future objects?"""
+    return "f" in (case.get("ka", "a"), case.get("kb", "a")) or "f" in (case.get("fk") or [])
+
+
 def run_impl(case):
     from tornado import gen
     from tornado.concurrent import chain_future
@@ -358,6 +454,10 @@ def run_impl(case):
     h = _LogCount()
     old_prop, old_handlers = lg.propagate, lg.handlers[:]
     lg.propagate, lg.handlers = False, [h]
+    cfl = logging.getLogger("concurrent.futures")   # "exception calling callback for <Future>" (swallowed there)
+    hc = _LogCount()
+    old_cf = cfl.propagate, cfl.handlers[:]
+    cfl.propagate, cfl.handlers = False, [hc]
     lp = _loop()
     _reset(lp)
     try:
@@ -367,16 +467,21 @@ def run_impl(case):
             if "handle" in ctx or str(ctx.get("message", "")).startswith("Exception in callback"):
                 cberrs.append(type(ctx.get("exception")).__name__)
         lp.set_exception_handler(on_exc)
-        return _run(case, lp, gen, chain_future, h, cberrs)
+        out = _run(case, lp, gen, chain_future, h, cberrs)
+        if _is_cf(case):
+            out["cflog"] = hc.n
+        return out
     finally:
         lg.propagate, lg.handlers = old_prop, old_handlers
+        cfl.propagate, cfl.handlers = old_cf
         _reset(lp)
 
 
-def _mk(st):
+def _mk(st, kinds=None):
+    """input futures in the given states; kinds[i] == "f" makes the i-th a concurrent.futures.Future"""
     fs = []
-    for o in st:
-        f = asyncio.Future()
+    for i, o in enumerate(st):
+        f = concurrent.futures.Future() if kinds and kinds[i] == "f" else asyncio.Future()
         if o != "p":
             _settle(f, o)
         fs.append(f)
@@ -387,7 +492,7 @@ def _run(case, lp, gen, chain_future, h, cberrs):
     k = case["k"]
     tick = lp._one_iteration
     if k == "chain":
-        a, b = _mk([case["pa"], case["pb"]])
+        a, b = _mk([case["pa"], case["pb"]], [case.get("ka", "a"), case.get("kb", "a")])
         chain_future(a, b)
         tr = [[_state(a), _state(b)]]
         for op in case["ops"]:
@@ -401,7 +506,7 @@ def _run(case, lp, gen, chain_future, h, cberrs):
             tr.append([_state(a), _state(b)])
         return {"trace": tr, "cberrs": cberrs, "quiet": not lp._ready}
     if k == "timeout":
-        (a,) = _mk([case["pa"]])
+        (a,) = _mk([case["pa"]], [case.get("ka", "a")])
         deadline = lp.time() + 10
         res = gen.with_timeout(deadline, a)
         obs = lambda: [_state(a), _state(res), bool(lp.live_timers()), h.n]
@@ -418,7 +523,7 @@ def _run(case, lp, gen, chain_future, h, cberrs):
                 tick()
             tr.append(obs())
         return {"trace": tr, "cberrs": cberrs, "quiet": not lp._ready}
-    fs = _mk(case["st"])
+    fs = _mk(case["st"], case.get("fk"))
     order = []          # actual settle order of the inputs (ghost for the oracle)
 
     def settle(i, o):
@@ -525,10 +630,11 @@ def _wops(ops):
 
 def model_requests(case, impl):
     k = case["k"]
+    cf = "-cf" if case.get("ka", "a") == "f" else ""     # Chain.initCF / Timeout.initCF: concurrent.futures source
     if k == "chain":
-        return [line(ID, "chain", _w(case["pa"]), _w(case["pb"]), _wops(case["ops"]))]
+        return [line(ID, "chain" + cf, _w(case["pa"]), _w(case["pb"]), _wops(case["ops"]))]
     if k == "timeout":
-        return [line(ID, "timeout", _w(case["pa"]), _wops(case["ops"]))]
+        return [line(ID, "timeout" + cf, _w(case["pa"]), _wops(case["ops"]))]
     if k == "multi":
         return [line(ID, "multi", [_w(s) for s in case["st"]], case["ch"], _wops(case["ops"]))]
     return [line(ID, "wait", [_w(s) for s in case["st"]], case["args"], _wops(case["ops"]))]
@@ -551,6 +657,16 @@ def _vals(reply):
 def model_result(case, replies):
     vals = _vals(replies[0])
     k = case["k"]
+    if _is_cf(case):
+        if k == "timeout":     # without the log-record count (error_callback timing differs for concurrent futures)
+            return {"trace": [[a, r, t == "armed"] for a, r, t, l in vals[0]], "cberrs": [], "cflog": 0}
+        if k in ("wait", "multi") and not _final_comparable(case):
+            return {"not-compared": "schedule does not let the loop drain", "cflog": 0}
+        if k == "wait":        # final state after the loop drained
+            return {"final": vals[0][-1], "order": list(dict.fromkeys(vals[2])), "done": vals[3], "cflog": 0}
+        if k == "multi":
+            return {"final": vals[0][-1][0], "cberrs": [], "cflog": 0}
+        return {"trace": vals[0], "cberrs": [], "cflog": 0}
     if k == "timeout":
         return {"trace": [[a, r, t == "armed", l] for a, r, t, l in vals[0]], "cberrs": []}
     if k == "wait":
@@ -558,8 +674,29 @@ def model_result(case, replies):
     return {"trace": vals[0], "cberrs": []}
 
 
+def _final_comparable(case):
+    """concurrent.futures children run their callbacks synchronously at set time, so the model (asyncio timing) only
+    predicts the state after the loop has drained: multi — the schedule ends with two idle iterations;
+    WaitIterator — the loop is idle before every operation (generated that way; shrinking may break it)"""
+    ops = case["ops"]
+    if case["k"] == "multi":
+        return len(ops) >= 2 and ops[-1][0] == "tick" and ops[-2][0] == "tick"
+    return _drained(ops)
+
+
 def impl_view(case, impl):
     k = case["k"]
+    if _is_cf(case):
+        cfl = impl["cflog"]
+        if k == "timeout":
+            return {"trace": [[a, r, t] for a, r, t, l in impl["trace"]], "cberrs": impl["cberrs"], "cflog": cfl}
+        if k in ("wait", "multi") and not _final_comparable(case):
+            return {"not-compared": "schedule does not let the loop drain", "cflog": cfl}
+        if k == "wait":
+            return {"final": impl["trace"][-1], "order": impl["order"], "done": impl["done"], "cflog": cfl}
+        if k == "multi":
+            return {"final": impl["trace"][-1][0], "cberrs": impl["cberrs"], "cflog": cfl}
+        return {"trace": impl["trace"], "cberrs": impl["cberrs"], "cflog": cfl}
     if k == "multi":
         return {"trace": [[s, n] for s, n, _ in impl["trace"]], "cberrs": impl["cberrs"]}
     if k == "wait":
@@ -652,6 +789,18 @@ def spec_violation(case, impl, replies):
             return "wait: next() raised %s%s" % (bad, " (duplicate arguments)" if dup else "")
         if impl["cberrs"]:
             return "wait: %s escaped a loop callback" % impl["cberrs"][0]
+        fk = case.get("fk") or []
+        if "f" in fk and "a" in fk and not _drained(case["ops"]) and not dup:
+            # mixed kinds, loop not idle between settles: a concurrent future reports synchronously, an asyncio
+            # future one iteration later, so "completion order" is only defined up to that window — demand that
+            # every completed input is yielded at most once with its own index and outcome, and all of them at the end
+            exp = [[args.index(f), impl["final"][f]] for f in impl["order"]]
+            for g in got:
+                if g not in exp or got.count(g) > 1:
+                    return "wait: yielded %r, not one of the completed inputs %r (each once)" % (g, exp)
+            if impl["done"] and all(s != "p" for s in impl["final"][:max(args) + 1]) and len(got) != len(exp):
+                return "wait: iterator done after %d yields, %d inputs completed" % (len(got), len(exp))
+            return None
         if dup:
             # every argument position must be yielded once; positions of one future may come in any order
             exp = sorted([[j, impl["final"][f]] for j, f in enumerate(args) if impl["final"][f] != "p"], key=repr)
@@ -718,6 +867,16 @@ def nontrivial(case, impl):
 def stats(case, impl):
     k = case["k"]
     out = ["kind:" + k]
+    if _is_cf(case):
+        out.append("concurrent-future:" + k)
+        if k in ("chain", "timeout"):
+            cfc = case.get("ka") == "f" and (case["pa"] == "c" or any(op[0] in ("setA", "soonA") and op[1] == "c" for op in case["ops"]))
+        else:
+            fk = case["fk"]
+            cfc = any(s == "c" and kd == "f" for s, kd in zip(case["st"], fk)) or \
+                any(op[0] in ("set", "soon") and op[2] == "c" and fk[op[1]] == "f" for op in case["ops"])
+        if cfc:
+            out.append("concurrent-future:cancelled")
     if "trace" not in impl:
         return out
     if k == "multi":
@@ -750,7 +909,9 @@ def signature(case, impl, why):
     k = case["k"]
     if "escaped the harness" in why:
         return k + "/harness-escape"
-    if k == "wait" and "duplicate arguments" in why:
+    if _is_cf(case):
+        k += "-cf"      # some input is a concurrent.futures.Future
+    elif k == "wait" and "duplicate arguments" in why:
         return "wait/duplicate-arguments/" + ("KeyError" if "KeyError" in why else "wrong-yields")
     canc = any(("c" in op[1:]) for op in case["ops"]) or "c" in (case.get("st") or [case.get("pa")])
     m = re.match(r"[a-z_]+: ([a-zA-Z ()#]+)", why)
